@@ -9,10 +9,23 @@ use crate::stack::Stack;
 use crate::BytecodePrimitive;
 use anyhow::{bail, Context, Result};
 use std::borrow::Cow;
-use std::cell::RefCell;
+use std::cell::{Cell, RefCell};
 use std::collections::HashMap;
 use std::io::{stdout, Write};
 use std::rc::{Rc, Weak};
+
+thread_local! {
+    /// The lowest address the native stack of this thread may grow down to while MScript calls
+    /// nest (0 = unknown, no limit). See [`Program::set_native_stack_budget`].
+    static NATIVE_STACK_FLOOR: Cell<usize> = const { Cell::new(0) };
+}
+
+/// The address of a local variable: close enough to the stack pointer.
+#[inline(never)]
+fn approximate_stack_pointer() -> usize {
+    let marker = 0u8;
+    std::hint::black_box(&marker) as *const u8 as usize
+}
 
 #[derive(Debug)]
 pub struct Program {
@@ -25,6 +38,17 @@ pub struct Program {
 }
 
 impl Program {
+    /// Tell the interpreter how many bytes of native stack the current thread owns, counted from
+    /// the caller's frame. Every MScript call nests a few native frames; with a budget, a
+    /// runaway recursion is reported as a run-time error before the thread overflows its stack
+    /// (which would abort the whole process).
+    pub fn set_native_stack_budget(bytes: usize) {
+        // room for the deepest instruction and for reporting the error
+        let reserve = (bytes / 4).min(512 * 1024);
+        let floor = approximate_stack_pointer().saturating_sub(bytes - reserve);
+        NATIVE_STACK_FLOOR.with(|cell| cell.set(floor));
+    }
+
     fn init_module_cache(
         entrypoint: Weak<String>,
         files_in_use: RefCell<HashMap<Rc<String>, Rc<MScriptFile>>>,
@@ -159,6 +183,10 @@ impl Program {
                 break;
             }
             last_hash -= 1;
+        }
+
+        if approximate_stack_pointer() < NATIVE_STACK_FLOOR.with(Cell::get) {
+            bail!("stack overflow: calls are nested too deeply for the interpreter's stack (does a recursion lack its base case? `--stack-size` sets the size of the stack)")
         }
 
         let (path, label) = destination_label.split_at(last_hash);
